@@ -325,6 +325,11 @@ pub fn gen_source(r: &mut StdRng, o: &GenOpts, dir: &str, deps: &[String], is_de
     if is_dep {
         ls.push(format!("end of dep {idx}"));
     }
+    if r.gen_range(0..40) == 0 {
+        // a very long first line: line-ending detection has to look past the usual buffer sizes
+        let len = [8180usize, 8189, 8190, 8191, 8192, 8193, 9000, 20_000][r.gen_range(0..8)];
+        ls.insert(0, format!("long first line {}", "x".repeat(len - 16)));
+    }
     let mut s = String::new();
     let n = ls.len();
     let final_nl = r.gen_bool(0.8);
